@@ -9,7 +9,7 @@ from harness.common import Check
 
 THEOREMS = ["C13_unrank_arith", "C13_unique", "C13_unique_rejects", "C13_unique_slices", "C13_unique_slices_upto_24", "C13_random_range", "C13_random_cover",
             "C13_conv_unique", "C13_conv_unique_rejects", "C13_positions_distinct", "C13_tree", "C13_unique_cover", "C13_unique_cover_all_refuted", "C13_tree_count", "C13_tree_levels_halve",
-            "C13_documented_count_refuted"]
+            "C13_documented_count_refuted", "C13_unrank_row_first", "C13_unrank_row_last", "C13_unrank_never_degenerate"]
 TRUSTED = [
     "Coq 8.16.1 kernel/coqc; theorems closed under the global context; the slice-level mirror of get_unique_connections equals the closed form for every size (C13_unique_slices; the computation up to in_dim 24 is kept as a cross-check); vm_compute for kernel evaluation of the model",
     "hand-written model Model/Wiring.v tied by exact equality with layer.indices / kernel_pairs of real constructors run under recorded "
